@@ -134,3 +134,18 @@ func vhC05Cycle() {
 	vAssert(len(rest) == 2, "C05.cycle.both-bars-still-in-the-container")
 	vCover("C05.cycle.reach")
 }
+
+// ---- queue length: WithQueueLen is honoured (C05: "any number of bars relative to the queue length")
+func vsQueueLen() {
+	q := vParam("queueLen")
+	e := vNewContainer(vManual, q)
+	got := -1
+	done := make(chan struct{})
+	e.p.operateState <- func(s *pState) {
+		got = cap(s.hm.req)
+		close(done)
+	}
+	<-done
+	vAssert(got == q, "Q.heap-manager-queue-has-the-configured-length")
+	e.vFinish("Q")
+}
